@@ -1,6 +1,6 @@
 """C11 - secret data never influences branches or memory addresses.
 1. TLC model-checks the taint discipline (sys/ConstTime.tla): an execution on which the monitor is silent is
-   observationally independent of the secrets (two-run model, every program up to MaxSteps instructions); a monitor
+   observationally independent of the secrets (two-run model, every program up to MaxSteps instructions, and unboundedly through the inductive invariant IndInv checked from every state satisfying it); a monitor
    that ignores addresses must fail.
 2. The monitor on the real binary is Valgrind memcheck with the secret operands marked undefined
    (harness/taint_driver.c, one function per operation of sys/ConstTimeOps.tla, at every listed length); its report
@@ -40,12 +40,15 @@ def run(R):
     r = R.tlc("sys/ConstTime.tla", "MCConstTime.cfg", workers=8, timeout=1200)
     if r.violated:
         R.violation("the taint discipline does not imply observational independence: " + r.tail(30), r.out, name="model")
-    for cfg in ("MCConstTimeBroken.cfg", "MCConstTimeVac1.cfg", "MCConstTimeVac2.cfg"):
+    ri = R.tlc("sys/ConstTime.tla", "MCConstTimeInd.cfg", workers=8, timeout=1200)      # unbounded: IndInv is inductive
+    if ri.violated:
+        R.violation("ConstTime!IndInv is not inductive: " + ri.tail(30), ri.out, name="model")
+    for cfg in ("MCConstTimeBroken.cfg", "MCConstTimeVac1.cfg", "MCConstTimeVac2.cfg", "MCConstTimeIndBroken.cfg"):
         rb = R.tlc("sys/ConstTime.tla", cfg, workers=4, timeout=600)
         if not rb.violated:
             raise vlib.MachineryError("vacuity: %s is not rejected" % cfg)
     R.add("states", r.distinct); R.add("transitions", r.generated)
-    R.cov["model"] = {"module": "ConstTime", "distinct": r.distinct, "generated": r.generated, "broken_variants_rejected": 3}
+    R.cov["model"] = {"module": "ConstTime", "distinct": r.distinct, "generated": r.generated, "broken_variants_rejected": 4, "inductive_invariant_states": ri.distinct}
     lens = LENS_THOROUGH if thorough else LENS_QUICK
     R.build_all(sorted({v for v, _, _ in CFGS}))
     exes = {v: R.cc("taint_driver", ["taint_driver.c"], v) for v in sorted({v for v, _, _ in CFGS})}
